@@ -5000,6 +5000,20 @@ def lib_flatnonzero(ev, a, k, n, mod):
 
 lib_flatnonzero.kw = set()
 LIB.setdefault("numpy.flatnonzero", lib_flatnonzero)
+def lib_dict_fromkeys(ev, a, k, n, mod):
+    """dict.fromkeys(iterable[, value]): the keys in order of first appearance"""
+    keys = ev.iterate(a[0], n, mod)
+    val = a[1] if len(a) > 1 else None
+    d = DictV()
+    for kk in keys:
+        if kk not in d.d:
+            d.d[kk] = val
+    return d
+
+
+lib_dict_fromkeys.kw = set()
+LIB["builtins.dict.fromkeys"] = lib_dict_fromkeys
+LIB["dict.fromkeys"] = lib_dict_fromkeys
 LIB.setdefault("numpy.absolute", lib_abs)
 LIB.setdefault("numpy.fabs", lib_abs)
 LIB.setdefault("numpy.diag", lib_diag)
